@@ -319,7 +319,7 @@ def r4(ck, rule="C02-R4"):
     bad = None
     nval = 0
     try:
-        for env in envs(["T"], 5):
+        for env in envs(["T"], 8 if ck.tier == "thorough" else 5):
             seq = m.S(it, env)
             nval += 1
             n, r, t = env["n"], m.L(needle, env), env["T"]
@@ -369,26 +369,36 @@ def r4(ck, rule="C02-R4"):
             where = mfn.where(dd[3]) if dd[0] == "stmt" else mfn.where(dd[2])
             if e == ("const", 0, "bool"):
                 nfalse += 1
-                doms = [(g, tv) for g in gl for tv, edge in ((True, g["true_edge"]), (False, g["false_edge"])) if dd[1] in cfg.dominated_by_edge(mfn, edge)]
-                good = False
+                # edges taken only for inadmissible positions; the `false` return must be unreachable once they are removed
+                excl = set()
                 try:
-                    for g, tv in doms:
-                        if all(mm.boolval(g["expr"], env) != tv for env in seqmodel.valuations(["A"], ["n", "r"], 4) if 0 <= env["A"] <= env["n"] - env["r"]):
-                            good = True
+                    for g in gl:
+                        for tv, edge in ((True, g["true_edge"]), (False, g["false_edge"])):
+                            try:
+                                if all(mm.boolval(g["expr"], env) != tv for env in seqmodel.valuations(["A"], ["n", "r"], 4)
+                                       if 0 <= env["A"] <= env["n"] - env["r"]):
+                                    excl.add(edge)
+                            except seqmodel.Unsupported:
+                                pass
+                    good = bool(excl) and dd[1] not in cfg.reachable(mfn, 0, disabled=excl)
                 except seqmodel.Unsupported as ex:
                     good = False
                 ck.require(good, rule, "matches() answers false without comparing only for inadmissible positions",
                            "a `false` return of matches() is not guarded by a condition that excludes every position in [0, len - needle_len]", where)
-            elif df.is_call(e, "::eq") and len(e[2]) == 2:
+            elif (df.is_call(e, "::eq") or df.is_call(e, "<impl [T]>::starts_with")) and len(e[2]) == 2:
                 ncmp += 1
                 a, b = e[2]
                 good = False
                 if df.is_call(a, "Index<I> for [T]>::index") and seqmodel.strip(b)[:2] == ("param", 1) and seqmodel.strip(a[2][0])[:2] == ("param", 2):
                     rg = a[2][1]
                     try:
-                        good = isinstance(rg, tuple) and rg[0] == "agg" and rg[1].endswith("ops::range::Range") and \
-                            all(mm.val(rg[3][0], env) == env["A"] and mm.val(rg[3][1], env) == env["A"] + env["r"]
-                                for env in seqmodel.valuations(["A"], ["n", "r"], 3) if env["A"] >= 0)
+                        if df.is_call(e, "::eq"):       # haystack[at .. at + needle.len()] == needle
+                            good = isinstance(rg, tuple) and rg[0] == "agg" and rg[1].endswith("ops::range::Range") and \
+                                all(mm.val(rg[3][0], env) == env["A"] and mm.val(rg[3][1], env) == env["A"] + env["r"]
+                                    for env in seqmodel.valuations(["A"], ["n", "r"], 3) if env["A"] >= 0)
+                        else:                             # haystack[at ..].starts_with(needle)
+                            good = isinstance(rg, tuple) and rg[0] == "agg" and rg[1].endswith("ops::range::RangeFrom") and \
+                                all(mm.val(rg[3][0], env) == env["A"] for env in seqmodel.valuations(["A"], ["n", "r"], 3) if env["A"] >= 0)
                     except seqmodel.Unsupported:
                         good = False
                 ck.require(good, rule, "matches() compares haystack[at .. at + needle.len()] with the needle",
